@@ -283,3 +283,62 @@ Proof.
   exists st3. split; [exact R3|].
   vm_compute in E3. inversion E3; subst st3. clear. vm_compute. repeat split; reflexivity.
 Qed.
+
+(* ---- 4. the single-write discipline without the lock: two goroutines are inside
+        WriteMessage at the same time, each hands its frame over in one chunk ---- *)
+Definition single_writeb (ev : event) : bool :=
+  match ev with ELock _ _ chunks => Nat.eqb (length chunks) 1 | _ => true end.
+
+Fixpoint run_sane1 (cfg : config) (st : state) (evs : list event) : option state :=
+  match evs with
+  | [] => Some st
+  | ev :: r =>
+      if single_writeb ev then
+        match step cfg st ev with
+        | Some st' => if saneb cfg st' then run_sane1 cfg st' r else None
+        | None => None
+        end
+      else None
+  end.
+
+Lemma run_sane1_reach cfg evs : forall st st',
+  reach1 cfg st -> run_sane1 cfg st evs = Some st' -> reach1 cfg st'.
+Proof.
+  induction evs as [|ev r IH]; intros st st' Hr H; cbn in H.
+  - inversion H; subst. exact Hr.
+  - destruct (single_writeb ev) eqn:B; [|discriminate].
+    destruct (step cfg st ev) as [st1|] eqn:E; [|discriminate].
+    destruct (saneb cfg st1) eqn:S; [|discriminate].
+    apply (IH st1 st'); [|exact H].
+    eapply reach1_step; eauto.
+    + destruct ev; cbn in *; auto. apply Nat.eqb_eq. exact B.
+    + apply saneb_sound. exact S.
+Qed.
+
+Lemma single_write_run_exists :
+  exists st, reach1 cfg_nolock st /\
+    length (e_done (ep_of st SA)) = 2%nat /\ length (e_seen (ep_of st SB)) = 2%nat /\
+    e_pending (ep_of st SA) = [] /\ queue st SA = [] /\ queue st SB = [].
+Proof.
+  destruct (run_sane1 cfg_nolock init
+              [ECall SA (str "/m/one") (str "args-one") [(str "k", str "1")] x73 ["m"%byte];
+               ECall SA (str "/m/two") (str "args-two") [(str "k", str "2")] x6a []]) as [st1|] eqn:E1;
+    [|vm_compute in E1; discriminate].
+  assert (R1 : reach1 cfg_nolock st1) by (eapply run_sane1_reach; [apply reach1_init | exact E1]).
+  vm_compute in E1. inversion E1; subst st1. clear E1.
+  match type of R1 with reach1 _ ?s1 =>
+    destruct (run_sane1 cfg_nolock s1
+              [ELock SA 1 (whole s1 SA 1); ELock SA 0 (whole s1 SA 0); EWrite SA 0; EWrite SA 0;
+               EUnlock SA; EUnlock SA; ERecv SB; ERecv SB]) as [st2|] eqn:E2 end;
+    [|vm_compute in E2; discriminate].
+  assert (R2 : reach1 cfg_nolock st2) by (eapply run_sane1_reach; [exact R1 | exact E2]).
+  vm_compute in E2. inversion E2; subst st2. clear E2 R1.
+  match type of R2 with reach1 _ ?s2 =>
+    destruct (run_sane1 cfg_nolock s2
+              [ELock SB 0 (whole s2 SB 0); ELock SB 0 (whole s2 SB 1); EWrite SB 1; EWrite SB 0;
+               EUnlock SB; EUnlock SB; ERecv SA; ERecv SA]) as [st3|] eqn:E3 end;
+    [|vm_compute in E3; discriminate].
+  assert (R3 : reach1 cfg_nolock st3) by (eapply run_sane1_reach; [exact R2 | exact E3]).
+  exists st3. split; [exact R3|].
+  vm_compute in E3. inversion E3; subst st3. clear. vm_compute. repeat split; reflexivity.
+Qed.
